@@ -1777,10 +1777,19 @@ def verify_circuit(in_ops, out_ops):
     own, wtype = [], {}
     for o in in_ops:
         for w in _own_work_wires(o):
-            if w not in sys and w not in own:
+            if w in sys:
+                continue
+            t = own_work_wire_type(o)
+            t = "borrowed" if t in (None, "None") else t
+            if w not in own:
                 own.append(w)
-                t = own_work_wire_type(o)
-                wtype[w] = "borrowed" if t in (None, "None") else t
+                wtype[w] = t
+            elif t != wtype[w]:
+                # the same work wire declared differently by two operators of the circuit: the circuit is only defined where EVERY
+                # declaration holds, i.e. the wire starts in |0> as soon as one operator needs it zeroed (borrowing operators restore
+                # it in between); it must come back to |0> unless some operator is allowed to burn it
+                kinds_seen = {t, wtype[w]}
+                wtype[w] = "burnable" if "burnable" in kinds_seen else "zeroed"
     pseudo = types.SimpleNamespace(wires=sys, hyperparameters={"work_wires": own}, work_wire_type=None)
     ref_ops = expand_for_sim(list(in_ops))
     Uin, _ = simulate(sys, ref_ops, set())
